@@ -1,4 +1,4 @@
-import PewProofs.ThermoParams
+import PewProofs.ThermoText
 
 /-! # C03 — property theorems (statements only depend on `PewModel.Thermo` and the hypothesis
 structures `RowsOK` / `ColsOK` of `PewProofs`) -/
@@ -368,6 +368,83 @@ theorem load_renderCols (x : Ext V) (sh : Nat → String) (delim : Char) (a : Ac
   simp only [hsniff]
   rw [← hchan, hrd, hpar, hkey.1, hkey.2]
 
+/-! ## from the table to the text of the file -/
+
+/-- **The text layer**: for a table whose first line starts with an empty field (both layouts do) and
+whose fields do not contain the delimiter, splitting the lines of its text — at the delimiter passed to
+a reader, or at the first character of the file when none is passed — gives the table back. -/
+theorem tableOf_renderText (d : Char) (g : String) (r : Row) (rest : Table)
+    (hne : ∀ q ∈ ("" :: g :: r) :: rest, q ≠ []) (h : ∀ q ∈ ("" :: g :: r) :: rest, ∀ f ∈ q, d ∉ f.toList) :
+    tableOf (some d) (renderText d (("" :: g :: r) :: rest)) = some (("" :: g :: r) :: rest) ∧
+    tableOf none (renderText d (("" :: g :: r) :: rest)) = some (("" :: g :: r) :: rest) := by
+  obtain ⟨tl, htl⟩ := head_renderText d g r rest
+  constructor
+  · simp only [tableOf]
+    rw [splitLines_renderText d _ hne h]
+  · simp only [tableOf, htl]
+    rw [splitLines_renderText d _ hne h]
+
+/-- `load` on the text of a table is `load` on the table -/
+theorem loadText_renderText (x : Ext V) (d : Char) (g : String) (r : Row) (rest : Table) (ua : Bool)
+    (hne : ∀ q ∈ ("" :: g :: r) :: rest, q ≠ []) (h : ∀ q ∈ ("" :: g :: r) :: rest, ∀ f ∈ q, d ∉ f.toList) :
+    loadText x (renderText d (("" :: g :: r) :: rest)) ua = load x d (("" :: g :: r) :: rest) ua := by
+  obtain ⟨tl, htl⟩ := head_renderText d g r rest
+  simp only [loadText, htl]
+  rw [splitLines_renderText d _ hne h]
+
+theorem renderRows_rows_ne (sh : Nat → String) (a : Acq) : ∀ q ∈ renderRows sh a, q ≠ [] := by
+  intro q hq
+  unfold renderRows at hq
+  simp only [List.cons_append, List.nil_append, List.mem_cons, List.mem_map] at hq
+  rcases hq with hq | hq | hq | hq | ⟨i, _, hq⟩
+  · rw [hq]; simp
+  · rw [hq]; simp
+  · rw [hq]; simp
+  · rw [hq]; simp
+  · rw [← hq]; simp
+
+theorem renderCols_rows_ne (sh : Nat → String) (a : Acq) : ∀ q ∈ renderCols sh a, q ≠ [] := by
+  intro q hq
+  unfold renderCols at hq
+  simp only [List.cons_append, List.nil_append, List.mem_cons, List.mem_map] at hq
+  rcases hq with hq | hq | ⟨y, _, hq⟩
+  · rw [hq]; simp
+  · rw [hq]; simp
+  · rw [← hq]; simp [colLine]
+
+/-- **`load` on the text of a samples-in-rows export** (the file as Qtegra writes it, decoded): the
+requested channel exactly as exported and the scan time; hypotheses of `load_renderRows`, and no field
+contains the delimiter. -/
+theorem load_text_rows (x : Ext V) (sh : Nat → String) (delim : Char) (a : Acq) (ci ct : Nat) (ua dec : Bool)
+    (hchan : a.chan ci = (if ua then "Analog" else "Counter")) (htime : a.chan ct = "Time")
+    (hr : RowsOK x sh a ci) (hrt : RowsOK x sh a ct)
+    (hdec : dec = true → delim = ';')
+    (hnodec : dec = false → ∀ r ∈ renderRows sh a, ∀ f ∈ r, hasSub "," f = false)
+    (hfree : ∀ r ∈ renderRows sh a, ∀ f ∈ r, delim ∉ f.toList) :
+    loadText x (renderText delim (renderRows sh a)) ua = .ok (specImg x dec a ci) (some (specParams x dec a ct)) := by
+  have hform : ∃ g r rest, renderRows sh a = ("" :: g :: r) :: rest := ⟨_, _, _, rfl⟩
+  obtain ⟨g, r, rest, hf⟩ := hform
+  have hne := renderRows_rows_ne sh a
+  rw [hf] at hne hfree ⊢
+  rw [loadText_renderText x delim g r rest ua hne hfree, ← hf]
+  exact load_renderRows x sh delim a ci ct ua dec hchan htime hr hrt hdec hnodec
+
+/-- **`load` on the text of a samples-in-columns export**, likewise. -/
+theorem load_text_cols (x : Ext V) (sh : Nat → String) (delim : Char) (a : Acq) (ci ct : Nat) (ua dec : Bool)
+    (hchan : a.chan ci = (if ua then "Analog" else "Counter")) (htime : a.chan ct = "Time")
+    (hc : ∀ b, ColsOK x sh b a ci) (hct : ∀ b, ColsOK x sh b a ct)
+    (hs : ∀ s ∈ a.samples, hasSub "MainRuns" s = false)
+    (hdec : dec = true → delim = ';')
+    (hnodec : dec = false → ∀ r ∈ renderCols sh a, ∀ f ∈ r, hasSub "," f = false)
+    (hfree : ∀ r ∈ renderCols sh a, ∀ f ∈ r, delim ∉ f.toList) :
+    loadText x (renderText delim (renderCols sh a)) ua = .ok (specImg x dec a ci) (some (specParams x dec a ct)) := by
+  have hform : ∃ g r rest, renderCols sh a = ("" :: g :: r) :: rest := ⟨_, _, _, rfl⟩
+  obtain ⟨g, r, rest, hf⟩ := hform
+  have hne := renderCols_rows_ne sh a
+  rw [hf] at hne hfree ⊢
+  rw [loadText_renderText x delim g r rest ua hne hfree, ← hf]
+  exact load_renderCols x sh delim a ci ct ua dec hchan htime hc hct hs hdec hnodec
+
 /-! ## non-vacuity: a 2-sample, 2-scan, 2-element acquisition with all five channels -/
 
 section examples
@@ -475,6 +552,12 @@ example : exAcq.chan 2 = "Time" ∧ exAcq.chan 4 = "Counter" ∧ exAcq.chan 3 = 
 example : ∀ r ∈ renderCols exShow exAcq, ∀ f ∈ r, hasSub "," f = false := by decide
 example : ∀ r ∈ renderRows exShow exAcq, ∀ f ∈ r, hasSub "," f = false := by decide
 example : ∀ s ∈ exAcq.samples, hasSub "MainRuns" s = false := by decide
+
+/-- `load_text_rows` / `load_text_cols` / `tableOf_renderText`: no field of the example contains `;` -/
+example : ∀ r ∈ renderRows exShow exAcq, ∀ f ∈ r, ';' ∉ f.toList := by decide
+example : ∀ r ∈ renderCols exShow exAcq, ∀ f ∈ r, ';' ∉ f.toList := by decide
+example : (renderText ';' (renderCols exShow exAcq)).take 3 =
+    [";;;;Sample 1;2;\n", ";;;;<Identifier>;<Identifier>;\n", "MainRuns;0;31P;X [u];0.000;1.000;\n"] := by decide
 
 /-- `sniff_other`: a text that is no export -/
 example : otherFile [["A", "B\n"], ["MainRuns", "0", "31P", "Counter", "1.0", "\n"]] = true := by decide
